@@ -182,6 +182,26 @@ func genCrashHistory(r *Rng, withRebuild bool) []storeOp {
 		ops = append(ops, storeOp{Kind: "add", Sigs: []detection.Signature{s0}}, storeOp{Kind: "add", Sigs: []detection.Signature{s1}}, storeOp{Kind: "delete", ID: s0.ID})
 		n = 1 + r.Intn(2)
 	}
+	// one history in two starts with a re-import: two stored records (one with entropy 0, whose gob
+	// record therefore carries no entropy field) are replaced by ONE batch that changes both entropies;
+	// every index key of the old versions has to be gone in every state a crash can leave behind
+	if r.Chance(50) {
+		a, b := genStoreSig(r, h, hashes, fuzzies), genStoreSig(r, h, hashes, fuzzies)
+		a.ID, b.ID = "A", "B"
+		a.EntropyScore, b.EntropyScore = pick(r, []float64{3, 8, 0.5}), 0
+		if r.Bool() {
+			a.ID, b.ID = "B", "A"
+		}
+		a2, b2 := a, b
+		a2.EntropyScore, b2.EntropyScore = pick(r, []float64{0, 3.03125}), pick(r, []float64{0.5, 3.00001})
+		first, second := a2, b2
+		if a.ID > b.ID {
+			first, second = b2, a2
+		}
+		ops = append(ops, storeOp{Kind: "add", Sigs: []detection.Signature{a}}, storeOp{Kind: "add", Sigs: []detection.Signature{b}},
+			storeOp{Kind: "addmany", Sigs: []detection.Signature{first, second}})
+		n = 1 + r.Intn(2)
+	}
 	for i := 0; i < n; i++ {
 		switch c := r.Intn(10); {
 		case c < 5:
